@@ -247,6 +247,9 @@ func (s *Scanner) Next() (lexeme.LexEvent, bool) {
 		case lexeme.InlineAnnotationTextBegin:
 			return s.processingFoundLexeme(lexeme.InlineAnnotationTextEnd), true
 		case lexeme.TypesShortcutBegin:
+			if s.unfinishedLiteral { // "@", "@a |", "@a | @"
+				break
+			}
 			s.found(lexeme.MixedValueEnd)
 			return s.processingFoundLexeme(lexeme.TypesShortcutEnd), true
 		}
@@ -1160,6 +1163,7 @@ func stateNul(s *Scanner, c byte) state {
 func stateTypesShortcutBeginOfSchemaName(s *Scanner, c byte) state {
 	if bytes.IsValidUserTypeNameByte(c) {
 		s.step = stateTypesShortcutSchemaName
+		s.unfinishedLiteral = false
 		return scanContinue
 	}
 	panic(s.newJSchemaErrorAtCharacter("in schema name"))
@@ -1187,6 +1191,7 @@ func stateTypesShortcutSchemaName(s *Scanner, c byte) state {
 
 	case c == '|':
 		s.step = stateTypesShortcutAfterPipe
+		s.unfinishedLiteral = true // a type name must follow
 
 	default:
 		return stateEndValue(s, c)
@@ -1213,6 +1218,7 @@ func stateTypesShortcutBeforePipe(s *Scanner, c byte) state {
 
 	case c == '|':
 		s.step = stateTypesShortcutAfterPipe
+		s.unfinishedLiteral = true // a type name must follow
 
 	default:
 		s.step = stateEndValue
